@@ -147,6 +147,15 @@ func c04Run(sc *hScenario) (*hViolation, map[string]bool) {
 func TestC04_History(t *testing.T) {
 	rapid.Check(t, func(rt *rapid.T) {
 		sc := genHistory(rt, c04Weights())
+		if rapid.IntRange(0, 4).Draw(rt, "skipuntil") == 0 {
+			// with dcp.listener.skipUntil: a dropped document event (also one with an old CAS after newer ones) is not settled
+			sc.SkipAt = rapid.IntRange(2, 12).Draw(rt, "skipat")
+			for i := range sc.Ops {
+				if sc.Ops[i].Op == "deliver" && i%3 == 0 {
+					sc.Ops[i].Old = true
+				}
+			}
+		}
 		journal("C04", "c04hist", sc)
 		v, labels := c04Run(&sc)
 		journalDone()
